@@ -37,3 +37,23 @@ Theorem C04_legacy_refuted :
   is_panic (fee_plan_legacy big_env (2 ^ 256 - 1) two_big_fees) = true /\
   is_panic (fee_plan big_env (2 ^ 256 - 1) two_big_fees) = false.
 Proof. vm_compute. split; reflexivity. Qed.
+
+(* finding 15 (C15, C19): a fee entry carrying BOTH alternatives of the fee type.  The generic proto-JSON
+   decoder visits the alternatives by iterating over a Go map and keeps the last one visited: which
+   one is a coin toss per run ([first_bps]).  With the decoder as it was, parsing is not a function of
+   the memo; the repaired parser refuses such documents (Model/Json.v dec_fee_info). *)
+From Orbiter Require Import Model.Json.
+Definition dec_fee_type_legacy (first_bps : bool) (f : list (string * json)) : res (option fee_type) :=
+  match jfield alt_bps f, jfield alt_amount f with
+  | Some j1, Some j2 => if first_bps then dec_amount j2 else dec_bps j1     (* the last visited wins *)
+  | Some j1, None => dec_bps j1
+  | None, Some j2 => dec_amount j2
+  | None, None => Ok None
+  end.
+Definition both_alternatives : list (string * json) :=
+  [("recipient", plain "noble1zw7vatnx0vla7gzxucgypz0kfr6965akpvzw69"); ("basis_points", JObj [("value", JNum "100")]); ("amount", JObj [("value", plain "5")])].
+Theorem C15_legacy_refuted : dec_fee_type_legacy true both_alternatives <> dec_fee_type_legacy false both_alternatives.
+Proof. vm_compute. discriminate. Qed.
+Theorem C15_repaired_refuses : is_ok (dec_fee_info (JObj both_alternatives)) = false.
+Proof. reflexivity. Qed.
+
